@@ -463,7 +463,7 @@ func (c *Ctx) Finish() {
 	_ = os.WriteFile(filepath.Join(c.Out, "evidence", c.Prop+".json"), append(b, '\n'), 0o644)
 
 	for _, k := range kkeys {
-		fmt.Printf("KNOWN-FINDING: property=%s key=%s events=%d %s\n", c.Prop, k, c.knownSeen[k], c.known[k])
+		fmt.Printf("KNOWN-FINDING: property=%s key=%s events=%d %s\n", c.Prop, k, c.knownSeen[k], clip(c.known[k]))
 	}
 	code := ExitHeld
 	switch {
@@ -507,8 +507,8 @@ func compact(m map[string]any) string {
 }
 
 func clip(s string) string {
-	if len(s) > 400 {
-		return s[:400] + "…"
+	if len(s) > 300 {
+		return s[:300] + "…"
 	}
 	return s
 }
